@@ -61,6 +61,9 @@ func genTunnelPlan(r *rand.Rand) *ProxyPlan {
 		if q.Method == "GET" && r.IntN(8) == 0 {
 			q.Body = 30 // unusual but legal: content on a GET request
 		}
+		if q.Body > 0 && r.IntN(3) == 0 {
+			q.ChunkedReq = true
+		}
 		if q.Method == "GET" && r.IntN(3) == 0 {
 			q.Range = []string{"bytes=0-4", "bytes=2-", "bytes=-3", "bytes=5-1", "bytes=100000-"}[r.IntN(5)]
 		}
